@@ -241,6 +241,30 @@ def run(A, R: Report, thorough: bool):
             else:
                 R.ok('R05.2', name, 'all exceptional paths pass on_run_error(), reset self._data and re-raise', where=where(fdata, call))
 
+    # ---- R05.9 the failure handler also sees aborts that are not `Exception`s
+    R.rule('R05.9', 'the handler that resets the data object after a failed run catches BaseException: a run aborted by KeyboardInterrupt / SystemExit must not leave the empty data object on the task', floor=1)
+    run_calls = [c for c in protected if c.func.attr == 'run']
+    tries = [t for t in inl(A, fdata) if isinstance(t, ast.Try) and any(x is c for c in run_calls for st in t.body for x in ast.walk(st))]
+    reset_handlers = []
+    in_finally = False
+    for t in tries:
+        for h in t.handlers:
+            if any(isinstance(x, ast.Assign) and any(src(tg) == 'self._data' for tg in x.targets) and isinstance(x.value, ast.Constant) and x.value.value is None for st in h.body for x in ast.walk(st)):
+                reset_handlers.append(h)
+        if any(isinstance(x, ast.Assign) and any(src(tg) == 'self._data' for tg in x.targets) and isinstance(x.value, ast.Constant) and x.value.value is None for st in t.finalbody for x in ast.walk(st)):
+            in_finally = True
+    if not reset_handlers and not in_finally:
+        R.undecided('R05.9', 'Task.data: failure handler', 'no handler around run() resets self._data (see R05.2)', where=where(fdata))
+    else:
+        def catches_all(h):
+            ts = [h.type] if not isinstance(h.type, ast.Tuple) else list(h.type.elts)
+            return h.type is None or any(src(t_) == 'BaseException' for t_ in ts)
+        ok9 = in_finally or any(catches_all(h) for h in reset_handlers)
+        kinds = sorted({src(h.type) if h.type is not None else 'bare' for h in reset_handlers})
+        R.check(ok9, 'R05.9', 'Task.data: failure handler', key_of('handler-kind', kinds, in_finally), f'reset under `except {", ".join(kinds) or "finally"}`',
+                f'the data object is reset only under `except {", ".join(kinds)}`: when run() is aborted by KeyboardInterrupt or SystemExit (an interrupted notebook cell), the task keeps an empty data object and every later '
+                'request of its value raises `ValueError: Value ... is not set` instead of recomputing (requesting the value again does not recover)', where=where(fdata, reset_handlers[0]) if reset_handlers else where(fdata))
+
     # ---- R05.3
     fpr = task.lookup('_process_run_result')
     cfg = A.cfg(fpr)
@@ -313,6 +337,22 @@ def run(A, R: Report, thorough: bool):
         R.check(ordered, 'R05.6', f'{ci.short}.init_persistence', key_of('fresh-workdir', bool(dl), ordered), 'an existing work directory is removed before it is created anew',
                 'the work directory of an earlier, killed attempt is reused as it is: files the new run does not overwrite are published with the new result',
                 witness=[e.describe() for e in mk + dl], where=where(f))
+    # the same for every other data class that builds its result in a temporary directory while saving
+    for ci, _ in persistent_data_classes(A):
+        if ci in dird.all_subclasses() or ci.lookup('tmp_path') is None or ci.lookup('save') is None:
+            continue
+        f = ci.lookup('save')
+        tmp = A.sym.func_term(ci.lookup('tmp_path'), ('inst', ci))
+        evs = E.collect(Ctx(f, ('inst', ci)), kinds=FS_MUTATING)
+        mk = [e for e in evs if e.kind == 'FS_MKDIR' and e.target is not None and same_path(e.target, tmp)]
+        if not mk:
+            continue
+        dl = [e for e in evs if e.kind == 'FS_DELETE' and e.target is not None and same_path(e.target, tmp)]
+        cfg6 = A.cfg(f)
+        ordered = bool(dl) and all(any(cfg6.path_exists([a.id for a in cfg_nodes_for(cfg6, d.root_node)], [b.id for b in cfg_nodes_for(cfg6, m.root_node)]) for d in dl) for m in mk)
+        R.check(ordered, 'R05.6', f'{ci.short}.save', key_of('fresh-workdir', bool(dl), ordered), 'an existing temporary directory is removed before it is created anew',
+                'the temporary directory of an earlier, aborted save is reused as it is: files the new save does not overwrite (the tail of a longer list) are published with the new result',
+                witness=[e.describe() for e in mk + dl], where=where(f))
     n_w = 0
     writers = [(ci, m) for ci, _ in persistent_data_classes(A) for m in ('save', 'set_value', 'finished')] + [(None, 'write_jsons')]
     for ci, mname in writers:
@@ -331,6 +371,30 @@ def run(A, R: Report, thorough: bool):
                 R.check('a' not in mode and 'x' not in mode and '+' not in mode.replace('w+', ''), 'R05.6', construct, key_of('open-mode', construct.split(':')[0], mode), f'opened with mode {mode} (truncates)',
                         f'the file is opened with mode `{mode}`: the partial file of an earlier failed attempt is extended (or blocks the new attempt) and the mixture is published', where=where(f, e.root_node))
     R.require(n_w >= 2, f'anchor: expected several file-opening writers on the save paths, found {n_w}')
+
+    # ---- R05.10 a temporary file is complete (closed) when it is published
+    R.rule('R05.10', 'a temporary file is published only after the handle that wrote it was closed: no publish / rename inside the `with ... open(...)` block that writes it', floor=2)
+    n10 = 0
+    for ci, _ in persistent_data_classes(A):
+        f = ci.lookup('save')
+        if f is None:
+            continue
+        for n, o in A.nodes(f):
+            if not isinstance(n, ast.Call):
+                continue
+            fn_ = src(n.func)
+            is_pub = fn_ in ('self._publish', 'os.replace', 'os.rename', 'shutil.move') or fn_.endswith('.replace') and 'tmp' in fn_ or fn_.endswith('.rename') and 'tmp' in fn_
+            if not is_pub or (fn_ != 'self._publish' and not any('tmp' in src(a_) for a_ in n.args) and 'tmp' not in fn_):
+                continue
+            if o is not f and o.name == '_publish':
+                continue   # the rename inside _publish itself: judged at the call of _publish
+            n10 += 1
+            open_withs = [p_ for p_ in _parents10(n) if isinstance(p_, (ast.With, ast.AsyncWith)) and any(
+                isinstance(x, ast.Call) and (src(x.func) == 'open' or (isinstance(x.func, ast.Attribute) and x.func.attr == 'open')) for it_ in p_.items for x in ast.walk(it_.context_expr))]
+            R.check(not open_withs, 'R05.10', f'{ci.short}.save: `{src(n)[:40]}`', key_of('publish-open-file', ci.short, bool(open_withs)), 'published after the writing handle is closed',
+                    'the temporary file is renamed to its final name while the handle that writes it is still open: buffered data reach the file only when the block ends, so for an instant (and for good, if the '
+                    'process dies there) the visible result is an empty or truncated file', where=where(o, n))
+    R.require(n10 >= 2, f'anchor: expected publish calls on the save paths of the file data classes, found {n10}')
 
     # ---- R05.7 the directory a run writes into is never the visible one
     R.rule('R05.7', 'the work directory that init_persistence hands to run() (`_dir`) is the temporary path on every path - never the published directory', floor=2)
@@ -355,3 +419,10 @@ def run(A, R: Report, thorough: bool):
                     where=where(ip, st_))
     R.require(n7 >= 2, 'anchor: no `self._dir = ...` store found in the init_persistence of directory data classes')
 
+
+
+def _parents10(n):
+    p = getattr(n, '_parent', None)
+    while p is not None and not isinstance(p, (ast.FunctionDef, ast.AsyncFunctionDef)):
+        yield p
+        p = getattr(p, '_parent', None)
